@@ -309,7 +309,8 @@ pub fn exec(toks: &[&str]) -> Result<String, String> {
                     return Err("search".into());
                 }
                 let k: usize = parse(f[0])?;
-                if k > 1_000_000 {
+                // usize::MAX is the documented way of searching "without a limit" (fix f8eb1af: `k + 1` overflowed there)
+                if k > 1_000_000 && k != usize::MAX {
                     return Err("k".into());
                 }
                 let p = unhex(f[1])?;
